@@ -259,6 +259,13 @@ def run(ctx):
                                 took = p.blocks[q + 2] != (sw["tgts"][sw["vals"].index("0")] if "0" in sw["vals"] else None)
                             prefixes.append((recv, pre, took))
                     succeeded = [pre for recv, pre, took in prefixes if took and recv == vf]
+                    # `strip_prefix(P)` tests and slices in one step: the slice starts right after the prefix it matched
+                    sp = T.find(src, lambda x: isinstance(x, tuple) and x[0] == "somepayload" and T.is_call(T.peel(x[1], payloads=False), r"slice::<impl \[T\]>::strip_prefix$"))
+                    if sp is not None:
+                        c_ = T.peel(sp[1], payloads=False)
+                        pre_ = T.const_bytes(T.peel(c_[2][1]))
+                        if pre_ is not None and T.variant_field(T.peel(c_[2][0])) == vf:
+                            succeeded.append(pre_)
                     ok = vf is not None and vf[0] == "Query" and off.is_const() and ln is None and bool(succeeded) and len(succeeded[-1]) == off.c
                     ctx.ob("C02.prefix-agreement", ok,
                            "USE: the schema text starts at payload[%r..] but the prefix matched on this path is %r" % (off, succeeded[-1] if succeeded else None),
@@ -313,7 +320,7 @@ def run(ctx):
     # prefix pairs: both spellings tested for one built-in have the same length
     pres = []
     for bb, t in fr.calls():
-        if cname(t["func"]).endswith("slice::<impl [T]>::starts_with"):
+        if cname(t["func"]).endswith("slice::<impl [T]>::starts_with") or cname(t["func"]).endswith("slice::<impl [T]>::strip_prefix"):
             pre = T.const_bytes(T.peel(fr.arg_origin(bb, 1)))
             if pre is not None:
                 pres.append(pre)
@@ -340,6 +347,14 @@ def run(ctx):
                 if sw is not None and sw["k"] == "switch" and pos + 2 < len(p.blocks) and "0" in sw["vals"]:
                     if p.blocks[pos + 2] != sw["tgts"][sw["vals"].index("0")] and recv is not None and recv[0] == "Query":
                         succeeded.append(pre)
+            if n.endswith("slice::<impl [T]>::strip_prefix"):
+                recv = T.variant_field(T.peel(p.arg(pos, 0)))
+                pre = T.const_bytes(T.peel(p.arg(pos, 1)))
+                key = (bb, pre)
+                if recv is not None and recv[0] == "Query" and pre is not None and key not in seen:
+                    seen.add(key)
+                    n_sl += 1
+                    ctx.ob("C02.prefix-agreement", True, "", fn=fr.path, construct="prefix-slice", callee="strip_prefix", where=fr.where(bb), nontrivial=False)
             if n.endswith("Index<I> for [T]>::index") or n.endswith("ops::Index::index"):
                 recv = T.variant_field(T.peel(p.arg(pos, 0)))
                 rng = p.arg(pos, 1)
